@@ -261,6 +261,8 @@ def run_scenario(sc):
         c.txn_coordinator_node = sc.get("txn_coord", 0) % len(c.brokers)
         c.group_coordinator_node = sc.get("group_coord", 0) % len(c.brokers)
         c.tc.marker_delay = sc.get("marker_delay", 0.0)
+        for k_, (lo_, hi_) in (sc.get("api_ranges") or {}).items():
+            c.api_ranges[int(k_)] = (lo_, hi_)
         lat = sc.get("latency", [0.001, 0.003])
         c.latency = lambda node, api: lat[0] + (lat[1] - lat[0]) * rng.random()
 
